@@ -1918,6 +1918,10 @@ class Interp:
         if decl == 'std::vec::from_elem':
             st.eff.append(('alloc', 'from_elem', args[1], site, fr.fn['def'], t['dest']['ty']))
             return ('vecrep', args[0], args[1])
+        if decl in ('std::vec::Vec::<T, A>::try_reserve', 'std::vec::Vec::<T, A>::try_reserve_exact') and len(args) == 2:
+            # a reservation all the same (it fails instead of aborting, but it still asks for the memory); the call itself is
+            # handled as the fallible opaque call it is
+            st.eff.append(('alloc', decl.split('::')[-1], args[1], site, fr.fn['def'], ''))
         if decl in ('std::vec::Vec::<T, A>::reserve', 'std::vec::Vec::<T, A>::reserve_exact',
                     'std::vec::Vec::<T, A>::resize'):
             st.eff.append(('alloc', decl.split('::')[-1], args[1], site, fr.fn['def'], ''))
